@@ -462,6 +462,48 @@ theorem multiframe_assembly_order_independent (ori : List Rat) (oo : Ori) (hori 
       simp only [Except.map, Option.map, hmax, hidx, hrow, pure, Except.pure]
       rfl
 
+/-- **slice selection restricts the assembled volume** (`Image.get_volume(slice_start, slice_end, as_indices=True)`; model
+`assembleFramesSel`, tie: stream `_selection_cases` L0 / L2): for every
+stack along a line that is accepted (frames in ANY order, several per plane), selecting slices `start ≤ · < stop` (`stop ≤ M + 1`)
+gives the same spacing, `stop − start` slices, the origin moved `start` spacings along the positive normal from the lowest plane,
+and exactly the frames of the planes in the range, each `start` slices lower — again independent of the frame order. -/
+theorem selected_assembly_restricts (ori : List Rat) (oo : Ori) (hori : Ori.ofList ori = some oo)
+    (f : Nat → V3) (g : Nat → Rat) (hfg : ∀ j, (normalSpec oo ('D', 'R') true).dot (f j) = g j) (hg : StrictMono g)
+    (js : List Nat) {M : Nat} (hM : 1 ≤ M) (hmem : ∀ j, j ∈ js ↔ j < M + 1) (hintO rtolO atolO : Option Rat)
+    {hint : Option Rat} {rtol atol : Rat}
+    (hopts : normaliseOpts { rtol := rtolO, atol := atolO, allowDuplicate := true, allowMissing := false, hint := hintO }
+      = .ok (hint, rtol, atol))
+    {sp : Rat} (hdec : lineDecision (normalSpec oo ('D', 'R') true) f g M hint rtol atol = .ok (some sp))
+    (start stop : Nat) (hss : start < stop) (hstop : stop ≤ M + 1) :
+    assembleFramesSel ((js.map f).map rowOf) ori hintO rtolO atolO false start stop
+      = .ok (sp, rowOf ((f 0).add (V3.smul ((start : Rat) * sp) (normalSpec oo ('D', 'R') true))), (stop : Int) - (start : Int),
+             (js.map Int.ofNat).zipIdx.filterMap fun (v, fr) =>
+               if (start : Int) ≤ v ∧ v < (stop : Int) then some (fr, v - (start : Int)) else none) := by
+  have hcv : ('D', 'R') ∈ validConventions := by decide
+  have hasm := multiframe_assembly_order_independent ori oo hori f g hfg hg js hM hmem hintO rtolO atolO hopts
+  rw [hdec] at hasm
+  simp only [] at hasm
+  unfold assembleFramesSel
+  have hconv : normConvention Gen.volumeIndexConvention = .ok ('D', 'R') := by decide +kernel
+  have hn1 : ¬ (((M + 1 : Nat) : Int) < (stop : Int)) := by
+    have : (stop : Int) ≤ ((M + 1 : Nat) : Int) := by exact_mod_cast hstop
+    omega
+  have hn2 : ¬ stop ≤ start := by omega
+  simp only [hasm, bind, Except.bind, hn1, hn2, if_false, hori, hconv, normalVector_eval oo hcv, ofList_rowOf, pure, Except.pure]
+  rfl
+
+/-- on an exactly regular stack the origin of the selection is the position of plane `start` -/
+theorem selected_origin_is_plane_start (o nrm : V3) (s : Rat) (start : Nat) :
+    (planePos o nrm s 0).add (V3.smul ((start : Rat) * s) nrm) = planePos o nrm s start := by
+  obtain ⟨a, b, c⟩ := o
+  obtain ⟨x, y, z⟩ := nrm
+  simp only [planePos, V3.add, V3.smul, V3.mk.injEq]
+  refine ⟨?_, ?_, ?_⟩ <;> push_cast <;> ring
+
+example : assembleFramesSel [[0, 0, -1], [0, 0, 0], [0, 0, -3], [0, 0, -2], [0, 0, -2]] [1, 0, 0, 0, 1, 0] (some 1) none none false 1 3
+    = .ok (1, [0, 0, -1], 2, [(0, 0), (3, 1), (4, 1)]) := by decide +kernel
+
+
 /-! ## `sort=False`: the order given is the order examined (defect C11-unsorted-uses-given-order, repaired) -/
 
 /-- a regular stack passed along the positive normal is accepted without sorting, with or without
@@ -607,6 +649,59 @@ theorem gaps_recognised (ori : List Rat) (oo : Ori) (hori : Ori.ofList ori = som
     | _ :: _ :: _, _, _ => simp
   rw [getVolumePositions_rows _ js hlen ori oo hori hcv op hconv hopts]
   exact volumePositionsOf_gaps o _ hn hs k hk hk0 js hM hmem op hsort hmiss hdup hint hsp hr ha
+
+/-- **a multi-frame image with MISSING slice positions assembles to the same volume whatever the order of its frames**
+(`Image.get_volume(allow_missing_positions=True)` / `get_volume_geometry`, the default route of `Segmentation.get_volume`; model
+`assembleFrames`, tie: `tie_assembly_choices` + stream `_multiframe_gaps`): frames at the planes `o + k_j·s·n` (plane numbers `k`
+strictly increasing from 0, any gaps), several frames per plane allowed, stored in ANY order `js` covering the present planes
+`0 … M`; spacing from the shared `SpacingBetweenSlices` (= `s`) or, without it, from two neighbouring present planes.  The volume has
+spacing `s`, `k_M + 1` slices (highest − lowest plane + 1, missing ones included), its origin is the lowest plane, and every frame
+sits in the slice of its plane number. -/
+theorem multiframe_gaps_assembly_order_independent (ori : List Rat) (oo : Ori) (hori : Ori.ofList ori = some oo)
+    (ho : OrthoPair oo.row oo.col) (o : V3) {s : Rat} (hs : 0 < s) (k : Nat → Nat) (hk : StrictMono k) (hk0 : k 0 = 0)
+    (js : List Nat) {M : Nat} (hM : 1 ≤ M) (hmem : ∀ j, j ∈ js ↔ j < M + 1) (hintO rtolO atolO : Option Rat)
+    {hint : Option Rat} {rtol atol : Rat}
+    (hopts : normaliseOpts { rtol := rtolO, atol := atolO, allowDuplicate := true, allowMissing := true, hint := hintO }
+      = .ok (hint, rtol, atol)) (hr : 0 ≤ rtol) (ha : 0 ≤ atol)
+    (hsp : hint = some s ∨ (hint = none ∧ (∃ j, j < M ∧ k (j + 1) = k j + 1) ∧ isClose s 0 npRtol eqTol = false)) :
+    assembleFrames ((js.map fun j => planePos o (normalSpec oo ('D', 'R') true) s (k j)).map rowOf) ori hintO rtolO atolO true
+      = .ok (s, rowOf (planePos o (normalSpec oo ('D', 'R') true) s 0), ((k M : Nat) : Int) + 1,
+             js.map fun j => ((k j : Nat) : Int)) := by
+  set nrm := normalSpec oo ('D', 'R') true with hnrm
+  have hcv : ('D', 'R') ∈ validConventions := by decide
+  have h0 : 0 ∈ js := (hmem 0).mpr (by omega)
+  have hgvp := gaps_recognised ori oo hori ho hcv
+    { rtol := rtolO, atol := atolO, allowDuplicate := true, allowMissing := true, hint := hintO } rfl rfl rfl hopts hr ha
+    o hs k hk hk0 js hM hmem (Or.inl rfl) hsp
+  simp only [] at hgvp
+  rw [← hnrm] at hgvp
+  have hinj : Function.Injective (fun j : Nat => ((k j : Nat) : Int)) := by
+    intro a b h
+    have : k a = k b := by simp only at h; exact_mod_cast h
+    exact hk.injective this
+  have hmax : maxList (js.map fun j => ((k j : Nat) : Int)) = some (((k M : Nat) : Int)) := by
+    apply maxList_eq
+    · have : M ∈ js := (hmem M).mpr (by omega)
+      exact List.mem_map.mpr ⟨M, this, rfl⟩
+    · intro x hx
+      obtain ⟨j, hj, rfl⟩ := List.mem_map.mp hx
+      have := (hmem j).mp hj
+      have : k j ≤ k M := hk.monotone (by omega)
+      exact_mod_cast this
+  have hidx : (js.map fun j => ((k j : Nat) : Int)).idxOf? 0 = some (js.idxOf 0) := by
+    have hm : (fun j : Nat => ((k j : Nat) : Int)) 0 ∈ js.map fun j => ((k j : Nat) : Int) := List.mem_map.mpr ⟨0, h0, rfl⟩
+    have := idxOf?_of_mem _ _ hm
+    rw [idxOf_map_injective hinj] at this
+    simpa [hk0] using this
+  have hrow : ((js.map fun j => planePos o nrm s (k j)).map rowOf)[js.idxOf 0]? = some (rowOf (planePos o nrm s 0)) := by
+    rw [List.map_map]
+    have := getElem?_idxOf_map (rowOf ∘ fun j => planePos o nrm s (k j)) 0 js h0
+    simpa [hk0] using this
+  unfold assembleFrames
+  simp only [hgvp, bind, Except.bind, hmax, hidx, hrow, pure, Except.pure]
+
+example : StrictMono (fun j : Nat => 2 * j) := fun a b h => by simp only; omega
+
 
 /-! ### the tolerance with gaps allowed (defect C11-gaps-tolerance-grows, repaired; formerly open finding C11-hint-drift) -/
 
@@ -1053,6 +1148,11 @@ The theorems above speak about the hand-written `spacingRegular`, `spacingMissin
 `Gen.seriesFirstFromSorted`, `Gen.seriesFirstIndex`, `Gen.seriesSingleSpacing`); the hand-written definitions are EQUAL to their
 twins built from those. -/
 
+/-- option handling: the three leading if-statements of `get_volume_positions` (`sort=False` restrictions, magnitude / zero test
+of the hint, exclusive tolerances and the default) are the source's (`Gen.optionFlags`, `Gen.optionHint`, `Gen.optionTolerances`,
+their order pinned textually by TC11v) -/
+theorem tie_option_handling (o : Opts) : normaliseOpts o = normaliseOptsSrc o := normaliseOpts_uses_source o
+
 /-- no gaps: the mean spacing and the quantity compared with the hint are the source's expressions -/
 theorem tie_no_gaps_expressions (ds : List Rat) (rk : List Nat) (hint : Option Rat) (rtol atol : Rat) :
     spacingRegular ds rk hint rtol atol = spacingRegularSrc ds rk hint rtol atol :=
@@ -1080,6 +1180,9 @@ theorem tie_assembly_choices {α} (rows : List (List Rat)) (items : List (List R
   ⟨assembleFrames_uses_source rows ori hint rtol atol allowMissing, assembleSeries_uses_source items sbs ori rtol atol⟩
 
 /-- non-vacuity: the twins evaluate (and refuse) like the functions -/
+example : normaliseOptsSrc { hint := some (-2), atol := some (1 / 8) } = .ok (some 2, 0, 1 / 8) := by decide +kernel
+example : normaliseOptsSrc { sort := false, allowMissing := true } = .error .value := by decide +kernel
+example : normaliseOptsSrc { rtol := some 1, atol := some 1 } = .error .type := by decide +kernel
 example : spacingRegularSrc [0, 2, 4] [0, 1, 2] (some 2) 0 0 = .ok (2, true, [0, 1, 2]) := by decide +kernel
 example : spacingRegularSrc [4, 2, 0] [0, 1, 2] (some 2) 0 0 = .ok (-2, true, [0, 1, 2]) := by decide +kernel
 example : spacingRegularSrc [0, 2, 4] [0, 1, 2] (some 3) 0 0 = .error .runtime := by decide +kernel
